@@ -16,6 +16,21 @@ Require Import AV.Mini.Syntax AV.Mini.Types.
 Import ListNotations.
 Local Open Scope Z_scope.
 
+(* values of the base types, as stored in the fields of a record *)
+Inductive bval : Type :=
+| BVNum (n : nty) (z : Z)
+| BVBool (b : bool)
+| BVStr (s : string).
+
+Definition bty_of_nty (n : nty) : bty := match n with NMI => BMI | NInt => BInt end.
+
+Definition btype_of (b : bval) : bty :=
+  match b with
+  | BVNum n _ => bty_of_nty n
+  | BVBool _ => BBool
+  | BVStr _ => BStr
+  end.
+
 Inductive value : Type :=
 | VNum (n : nty) (z : Z)
 | VBool (b : bool)
@@ -25,11 +40,44 @@ Inductive value : Type :=
 | VLNum (n : nty) (zs : list Z)
 | VLBool (bs : list bool)
 | VLStr (ss : list string)
-| VBox (d : dom) (n : nty) (z : Z).   (* a value of BoxA(T) / BoxB(T): Rep == T *)
+| VBox (d : dom) (n : nty) (z : Z)    (* a value of BoxA(T) / BoxB(T): Rep == T *)
+| VANum (n : nty) (zs : list Z)       (* arrays of base values (one representation per element type) *)
+| VABool (bs : list bool)
+| VAStr (ss : list string)
+| VUni (pre : list bty) (b : bval) (post : list bty)
+      (* a union value in branch number (length pre); the branch types before and after are
+         kept so that the value determines its own type *)
+| VClo (j : nat) (env : list bval)    (* a function value: function number j of the file, applied to
+                                         the captured values env and waiting for the other arguments *)
+| VRec (fs : list bval).              (* a record; never shared between updatable names (Types.v) *)
 
-Definition bty_of_nty (n : nty) : bty := match n with NMI => BMI | NInt => BInt end.
+(* The type of a value.  A function value determines its type through the function table F:
+   function j applied to env has type (remaining parameters) -> result, provided env fits the
+   leading parameters, every parameter and the result are of base type and the function sees
+   no global; any other combination has the type TBad that no expression has.            *)
+Fixpoint btys_of_tys (ts : list ty) : option (list bty) :=
+  match ts with
+  | [] => Some []
+  | t :: r => match bty_of_ty t, btys_of_tys r with
+              | Some b, Some bs => Some (b :: bs)
+              | _, _ => None
+              end
+  end.
 
-Definition type_of (v : value) : ty :=
+Definition clo_ty (F : list fundef) (j : nat) (env : list bval) : ty :=
+  match nth_error F j with
+  | Some fd =>
+      match btys_of_tys (fd_params fd), bty_of_ty (fd_ret fd) with
+      | Some bs, Some r =>
+          if (Nat.eqb (fd_nglob fd) 0 && btys_eqb (firstn (List.length env) bs) (map btype_of env)
+              && Nat.leb (List.length env) (List.length bs))%bool
+          then TFun (skipn (List.length env) bs) r else TBad
+      | _, _ => TBad
+      end
+  | None => TBad
+  end.
+
+Definition type_of (F : list fundef) (v : value) : ty :=
   match v with
   | VNum n _ => ty_of_nty n
   | VBool _ => TBool
@@ -38,6 +86,34 @@ Definition type_of (v : value) : ty :=
   | VLBool _ => TList BBool
   | VLStr _ => TList BStr
   | VBox d n _ => TBox d n
+  | VANum n _ => TArr (bty_of_nty n)
+  | VABool _ => TArr BBool
+  | VAStr _ => TArr BStr
+  | VUni pre b post => TUni (pre ++ btype_of b :: post)
+  | VClo j env => clo_ty F j env
+  | VRec fs => TRec (map btype_of fs)
+  end.
+
+Definition to_bval (v : value) : option bval :=
+  match v with
+  | VNum n z => Some (BVNum n z)
+  | VBool b => Some (BVBool b)
+  | VStr s => Some (BVStr s)
+  | _ => None
+  end.
+
+Definition of_bval (b : bval) : value :=
+  match b with
+  | BVNum n z => VNum n z
+  | BVBool x => VBool x
+  | BVStr x => VStr x
+  end.
+
+Fixpoint set_nth {A : Type} (l : list A) (k : nat) (a : A) : option (list A) :=
+  match l, k with
+  | [], _ => None
+  | _ :: r, O => Some (a :: r)
+  | x :: r, S k' => match set_nth r k' a with Some r' => Some (x :: r') | None => None end
   end.
 
 (* the elements of a list value, as values *)
@@ -46,7 +122,30 @@ Definition dec_list (v : value) : option (list value) :=
   | VLNum n zs => Some (map (VNum n) zs)
   | VLBool bs => Some (map VBool bs)
   | VLStr ss => Some (map VStr ss)
+  | VANum n zs => Some (map (VNum n) zs)       (* for x in a: the elements in index order *)
+  | VABool bs => Some (map VBool bs)
+  | VAStr ss => Some (map VStr ss)
   | _ => None
+  end.
+
+(* the array value with the given elements *)
+Definition enc_arr (b : bty) (vs : list value) : option value :=
+  match b with
+  | BMI => option_map (VANum NMI) (map_opt (fun v => match v with VNum _ z => Some z | _ => None end) vs)
+  | BInt => option_map (VANum NInt) (map_opt (fun v => match v with VNum _ z => Some z | _ => None end) vs)
+  | BBool => option_map VABool (map_opt (fun v => match v with VBool x => Some x | _ => None end) vs)
+  | BStr => option_map VAStr (map_opt (fun v => match v with VStr x => Some x | _ => None end) vs)
+  end.
+
+(* a.(i) := v on an array value; None when i is outside 0 .. #a - 1 *)
+Definition arr_set (a : value) (i : Z) (v : value) : option (option value) :=
+  (* outer None: dynamic type error; inner None: index out of range *)
+  if (i <? 0)%Z then Some None else
+  match a, v with
+  | VANum n zs, VNum _ z => Some (option_map (VANum n) (set_nth zs (Z.to_nat i) z))
+  | VABool bs, VBool x => Some (option_map VABool (set_nth bs (Z.to_nat i) x))
+  | VAStr ss, VStr x => Some (option_map VAStr (set_nth ss (Z.to_nat i) x))
+  | _, _ => None
   end.
 
 (* the list value with the given elements *)
@@ -93,6 +192,12 @@ Definition show (v : value) : string :=
   | VLBool bs => ("[" ++ sep_strs (map (fun b : bool => if b then "T"%string else "F"%string) bs) ++ "]")%string
   | VLStr ss => ("[" ++ sep_strs ss ++ "]")%string
   | VBox _ _ _ => "?box"%string          (* no OutputType: never printed by a well-typed program *)
+  | VANum _ zs => ("[" ++ sep_strs (map dec_of_Z zs) ++ "]")%string      (* sal_array.as:325-333 *)
+  | VABool bs => ("[" ++ sep_strs (map (fun b : bool => if b then "T"%string else "F"%string) bs) ++ "]")%string
+  | VAStr ss => ("[" ++ sep_strs ss ++ "]")%string
+  | VUni _ _ _ => "?union"%string
+  | VClo _ _ => "?function"%string
+  | VRec _ => "?record"%string
   end.
 
 (* ---- library operations ---- *)
@@ -211,6 +316,23 @@ Definition prim_eval (p : prim) (vs : list value) : pres :=
   | PTwice _ _, [VBox d n z] => PVal (VBox d n (box_bump d n (box_bump d n z)))
   | PScale _ _, [VBox d n z; VNum _ k] =>
       PVal (VBox d n (match d with DA => norm n (z * k) | DB => norm n (norm n (z * k) + 1) end))
+  (* Array(T): new(n, x) for n >= 0; a.i for 0 <= i < #a (the shipped library does not check:
+     outside that range the result is not defined)                                          *)
+  | PANew b, [VNum _ k; x] =>
+      if (k <? 0)%Z then PUndef
+      else match enc_arr b (repeat x (Z.to_nat k)) with Some a => PVal a | None => PStuck end
+  | PALen _, [VANum _ zs] => PVal (VNum NMI (Z.of_nat (List.length zs)))
+  | PALen _, [VABool xs] => PVal (VNum NMI (Z.of_nat (List.length xs)))
+  | PALen _, [VAStr xs] => PVal (VNum NMI (Z.of_nat (List.length xs)))
+  | PAGet _, [VANum n zs; VNum _ i] =>
+      if (0 <=? i) then match nth_error zs (Z.to_nat i) with Some z => PVal (VNum n z) | None => PUndef end
+      else PUndef
+  | PAGet _, [VABool xs; VNum _ i] =>
+      if (0 <=? i) then match nth_error xs (Z.to_nat i) with Some x => PVal (VBool x) | None => PUndef end
+      else PUndef
+  | PAGet _, [VAStr xs; VNum _ i] =>
+      if (0 <=? i) then match nth_error xs (Z.to_nat i) with Some x => PVal (VStr x) | None => PUndef end
+      else PUndef
   | _, _ => PStuck
   end.
 
@@ -246,13 +368,6 @@ Definition bind {A B : Type} (r : res A) (k : state -> A -> res B) : res B :=
   | RUndef => RUndef
   | RFuel => RFuel
   | RStuck => RStuck
-  end.
-
-Fixpoint set_nth {A : Type} (l : list A) (k : nat) (a : A) : option (list A) :=
-  match l, k with
-  | [], _ => None
-  | _ :: r, O => Some (a :: r)
-  | x :: r, S k' => match set_nth r k' a with Some r' => Some (x :: r') | None => None end
   end.
 
 Definition with_frame (s : state) (fr : list value) : state := mkSt (sg s) fr (so s).
@@ -330,6 +445,55 @@ Section Eval.
           | RFuel => RFuel
           | RStuck => RStuck
           end
+      | EArrLit b es =>
+          bind (eval_args f' s es) (fun s' vs =>
+            match enc_arr b vs with Some v => RVal s' v | None => RStuck end)
+      | ERec _ es =>
+          bind (eval_args f' s es) (fun s' vs =>
+            match map_opt to_bval vs with Some bs => RVal s' (VRec bs) | None => RStuck end)
+      | EField i e' =>
+          bind (eval_expr f' s e') (fun s' v =>
+            match v with
+            | VRec bs => match nth_error bs i with Some b => RVal s' (of_bval b) | None => RStuck end
+            | _ => RStuck
+            end)
+      | EClo name ps _ caps =>
+          bind (eval_args f' s caps) (fun s' vs =>
+            match map_opt to_bval vs, resolve F name (map (type_of F) vs ++ map ty_of_bty ps) with
+            | Some bs, Some (j, _) => RVal s' (VClo j bs)
+            | _, _ => RStuck
+            end)
+      | EApp fn args =>
+          bind (eval_expr f' s fn) (fun s1 vf =>
+            bind (eval_args f' s1 args) (fun s2 vs =>
+              match vf with
+              | VClo j env =>
+                  match nth_error F j with
+                  | Some fd => eval_fun f' s2 fd (map of_bval env ++ vs)
+                  | None => RStuck
+                  end
+              | _ => RStuck
+              end))
+      | EUni fs i e' =>
+          bind (eval_expr f' s e') (fun s' v =>
+            match to_bval v with
+            | Some bv => RVal s' (VUni (firstn i fs) bv (skipn (S i) fs))
+            | None => RStuck
+            end)
+      | ECase i e' =>
+          bind (eval_expr f' s e') (fun s' v =>
+            match v with
+            | VUni pre _ _ => RVal s' (VBool (Nat.eqb (List.length pre) i))
+            | _ => RStuck
+            end)
+      (* u.f<i> on a value of another branch: the guide does not say (langtdef.tex:512-514 only
+         "extracts the value"): not defined                                                 *)
+      | EUGet i e' =>
+          bind (eval_expr f' s e') (fun s' v =>
+            match v with
+            | VUni pre bv _ => if Nat.eqb (List.length pre) i then RVal s' (of_bval bv) else RUndef
+            | _ => RStuck
+            end)
       | EListLit b es =>
           bind (eval_args f' s es) (fun s' vs =>
             match enc_list b vs with Some v => RVal s' v | None => RStuck end)
@@ -363,9 +527,17 @@ Section Eval.
     match f with
     | O => RFuel
     | S f' =>
-      match resolve F name (map type_of vs) with
+      match resolve F name (map (type_of F) vs) with
       | None => RStuck
-      | Some (_, fd) =>
+      | Some (_, fd) => eval_fun f' s fd vs
+      end
+    end
+
+  (* run the definition fd on the actual arguments vs *)
+  with eval_fun (f : nat) (s : state) (fd : fundef) (vs : list value) {struct f} : res value :=
+    match f with
+    | O => RFuel
+    | S f' =>
           let back (s' : state) := with_frame s' (sl s) in
           match eval_locals f' (with_frame s vs) (fd_locals fd) with
           | RVal s1 _ =>
@@ -392,7 +564,6 @@ Section Eval.
           | RFuel => RFuel
           | _ => RStuck
           end
-      end
     end
 
   with eval_locals (f : nat) (s : state) (ls : list (ty * expr)) {struct f} : res unit :=
@@ -434,6 +605,62 @@ Section Eval.
             | Some l' => RVal (mkSt (sg s1) l' (so s1)) tt
             | None => RStuck
             end)
+      | SSetG k i e =>
+          bind (eval_expr f' s e) (fun s1 v =>
+            match nth_error (sg s1) k, to_bval v with
+            | Some (VRec bs), Some b =>
+                match set_nth bs i b with
+                | Some bs' => match set_nth (sg s1) k (VRec bs') with
+                              | Some g' => RVal (mkSt g' (sl s1) (so s1)) tt
+                              | None => RStuck
+                              end
+                | None => RStuck
+                end
+            | _, _ => RStuck
+            end)
+      | SSetL k i e =>
+          bind (eval_expr f' s e) (fun s1 v =>
+            match nth_error (sl s1) k, to_bval v with
+            | Some (VRec bs), Some b =>
+                match set_nth bs i b with
+                | Some bs' => match set_nth (sl s1) k (VRec bs') with
+                              | Some l' => RVal (mkSt (sg s1) l' (so s1)) tt
+                              | None => RStuck
+                              end
+                | None => RStuck
+                end
+            | _, _ => RStuck
+            end)
+      | SSetIG k i e =>
+          bind (eval_expr f' s i) (fun s1 vi =>
+            bind (eval_expr f' s1 e) (fun s2 v =>
+              match nth_error (sg s2) k, vi with
+              | Some a, VNum _ z =>
+                  match arr_set a z v with
+                  | Some (Some a') => match set_nth (sg s2) k a' with
+                                      | Some g' => RVal (mkSt g' (sl s2) (so s2)) tt
+                                      | None => RStuck
+                                      end
+                  | Some None => RUndef
+                  | None => RStuck
+                  end
+              | _, _ => RStuck
+              end))
+      | SSetIL k i e =>
+          bind (eval_expr f' s i) (fun s1 vi =>
+            bind (eval_expr f' s1 e) (fun s2 v =>
+              match nth_error (sl s2) k, vi with
+              | Some a, VNum _ z =>
+                  match arr_set a z v with
+                  | Some (Some a') => match set_nth (sl s2) k a' with
+                                      | Some l' => RVal (mkSt (sg s2) l' (so s2)) tt
+                                      | None => RStuck
+                                      end
+                  | Some None => RUndef
+                  | None => RStuck
+                  end
+              | _, _ => RStuck
+              end))
       | SPrint es =>
           bind (eval_args f' s es) (fun s1 vs =>
             RVal (emit s1 (String.concat "" (map show vs) ++ nl)) tt)
